@@ -2223,7 +2223,7 @@ func TestVerifC20(t *testing.T) {
 	defer vc.Finish()
 
 	const steps = 40
-	total := vc.N(384, 16000)
+	total := vc.N(256, 16000)
 	if vc.Only < 0 && vc.Shard == 0 {
 		verifC20ProbeV2(t, vc)
 	}
